@@ -65,6 +65,16 @@ def parseCelTable (c : Json) : E (List (String × Cel)) := do
 
 abbrev CelTable := List (String × Cel)
 
+/-- the expression by which the cel authorizers of the harness catalogue listen to the probe that asks to be refused:
+`Request.Header("X-Deny") != "1"` (prototype of every cel authorizer, payload 3 of the older streams) -/
+def denyText : String := "Request.Header(\"X-Deny\") != \"1\""
+def denyTree : Cel := .ne (.call1 (.var "Request") "Header" (.str "X-Deny")) (.str "1")
+
+/-- the expression texts the harness catalogue and the fixed payloads of the older streams use, with their trees; they
+complete the table of a case -/
+def builtinCel : CelTable :=
+  [(denyText, denyTree), ("true", .bool true), ("Subject.ID != \"\"", .ne (.sel (.var "Subject") "ID") (.str ""))]
+
 /-- the `if` of a step.  `cel`: the step's `if` is an expression of the case's table, its class is computed from the
 tree (`Cel.cond`: static type, or does not compile); the other names are the classes of the older streams (`expr`: the
 boolean expression `Request.Header("X-Skip") != "1"`) -/
@@ -104,13 +114,14 @@ structure Decl where
 
 /-- the catalogue entry the Go harness configures for a declaration (`facMechanism`): its type and what the
 prototype shows; the override payloads of the older streams (tags below 100, fixed per type, acceptance declared by
-the generator): tag 1 is the one whose effect is visible -/
+the generator): tag 1 is the one whose effect is visible; the cel authorizers listen to the deny probe unless
+overridden with payload 1 (`true`) or 2 (`Subject.ID != ""`), payload 3 is the listening expression again -/
 def typedMech (kind : Kind) (typ id : String) (accepts : List Nat) : E TMech := do
   let (t, proto, ovr) ← (match kind, typ with
     | .authn, "generic" => pure (MType.generic, ({} : Shown), ({ fallback := false } : Shown))
     | .authn, "anonymous" => pure (.anonymous, { subject := "anon".toList }, { subject := "ovr".toList })
     | .authz, "remote" => pure (.remote, { values := [("v".toList, "base".toList)] }, { values := [("v".toList, "ovr".toList)] })
-    | .authz, "cel" => pure (.cel, { expressions := ["true".toList] }, { expressions := ["true".toList] })
+    | .authz, "cel" => pure (.cel, { expressions := [denyText.toList] }, { expressions := ["true".toList] })
     | .ctx, "generic" => pure (.genericCtx, { values := [("v".toList, "base".toList)] }, { values := [("v".toList, "ovr".toList)] })
     | .fin, "header" => pure (.header, { headers := [("X-Fin".toList, (id ++ "/{{ .Subject.ID }}/base").toList)] },
                               { headers := [("X-Fin".toList, (id ++ "/{{ .Subject.ID }}/ovr").toList)] })
@@ -118,7 +129,11 @@ def typedMech (kind : Kind) (typ id : String) (accepts : List Nat) : E TMech := 
     | .eh, "default" => pure (.dflt, {}, {})
     | .eh, "www_authenticate" => pure (.wwwAuthenticate, { realm := "base".toList }, { realm := "base".toList })
     | _, _ => throw s!"catalogue: unsupported mechanism type {typ}" : E (MType × Shown × Shown))
-  pure { type := t, proto := proto, legacy := accepts.map fun n => (n, if n == 1 then ovr else proto) }
+  let shown (n : Nat) : Shown :=
+    if n == 1 then ovr
+    else if t == .cel && n == 2 then { expressions := ["Subject.ID != \"\"".toList] }
+    else proto
+  pure { type := t, proto := proto, legacy := accepts.map fun n => (n, shown n) }
 
 def parseDecl (j : Json) : E Decl := do
   let kind ← parseKind (← str j "kind")
@@ -207,22 +222,27 @@ def companion : RuleDef := { forwardTo := true, execute := [{ authenticator := s
 
 def traceJson (rule : String) (t : Trace) : Json :=
   Json.mkObj [("rule", jstr rule), ("calls", jstrs t.calls), ("fin", jstrs t.fin), ("hdr", jstrs t.hdr), ("ret", jstr t.ret),
-    ("perr", jstr t.perr), ("upstream", Json.bool t.upstream)]
+    ("perr", jstr t.perr), ("upstream", Json.bool t.upstream), ("src", jstr t.src)]
 
 def noRule : Json := Json.mkObj [("rule", jstr "none:no_rule")]
 
-/-- the six probe requests against the rule set {main, companion} and the default rule -/
-def probes (sh : Showing) (fl : Flavours) (main comp : Effective) (dflt : Option Pipelines) : List Json :=
+/-- the eight probe requests against the rule set {main, companion} and the default rule; the last two ask the cel
+authorizers to refuse them (conditions true / false) -/
+def probes (sh : Showing) (fl : Flavours) (den : Refusing) (main comp : Effective) (dflt : Option Pipelines) :
+    List Json :=
   let fallback (p : Probe) : Json :=
     match dflt with
-    | some d => traceJson "default" (execute sh fl { toPipelines := d } p)
+    | some d => traceJson "default" (execute sh fl den { toPipelines := d } p)
     | none => noRule
-  [ traceJson "main" (execute sh fl main ⟨false, false⟩),
-    traceJson "main" (execute sh fl main ⟨false, true⟩),
-    traceJson "main" (execute sh fl main ⟨true, false⟩),
-    traceJson "main" (execute sh fl main ⟨true, true⟩),
-    (if main.backtracking then traceJson "companion" (execute sh fl comp ⟨true, false⟩) else fallback ⟨true, false⟩),
-    fallback ⟨true, false⟩ ]
+  [ traceJson "main" (execute sh fl den main { authnOk := false, skip := false }),
+    traceJson "main" (execute sh fl den main { authnOk := false, skip := true }),
+    traceJson "main" (execute sh fl den main { authnOk := true, skip := false }),
+    traceJson "main" (execute sh fl den main { authnOk := true, skip := true }),
+    (if main.backtracking then traceJson "companion" (execute sh fl den comp { authnOk := true, skip := false })
+     else fallback { authnOk := true, skip := false }),
+    fallback { authnOk := true, skip := false },
+    traceJson "main" (execute sh fl den main { authnOk := true, skip := false, deny := true }),
+    traceJson "main" (execute sh fl den main { authnOk := true, skip := true, deny := true }) ]
 
 def rejectedCfg : Json := Json.mkObj [("factory", jstr "rejected")]
 def rejectedRule : Json := Json.mkObj [("load", jstr "rejected")]
@@ -307,7 +327,7 @@ def runCel (c : Json) : E Json := do
 
 def run (c : Json) : E Json := do
   if strD c "op" "" == "cel" then return ← runCel c
-  let Γ ← parseCelTable c
+  let Γ := (← parseCelTable c) ++ builtinCel
   let decls ← (← arr c "cat").mapM parseDecl
   -- the typed catalogue: what every mechanism shows, and the override VALUES the steps name by tag; the abstract
   -- catalogue of the rule factory model is derived from it (`WithConfig` accepts a tag iff it accepts its value)
@@ -319,6 +339,8 @@ def run (c : Json) : E Json := do
   let cat := T.catalogue
   let sh : Showing := fun m => (T.variant m.kind m.id m.config).getD {}
   let fl := flavours decls
+  -- which mechanisms verify an expression that listens to the probe asking to be refused
+  let den : Refusing := refusing sh fun src => Γ.lookup (String.ofList src)
   let proxy := strD c "mode" "decision" == "proxy"
   -- rule sets of kubernetes resources are not validated by heimdall's rule set decoder
   let validated := strD c "path" "yaml" != "k8s"
@@ -333,7 +355,7 @@ def run (c : Json) : E Json := do
       | .ok comp =>
         let loads := results.map fun r =>
           match r with
-          | .ok e => acceptedRule (probes sh fl e comp f.dflt)
+          | .ok e => acceptedRule (probes sh fl den e comp f.dflt)
           | .error _ => rejectedRule
         let reasons := results.map fun r =>
           match r with
@@ -354,7 +376,7 @@ def run (c : Json) : E Json := do
         let comp := Spec.effective dd companion
         (loadedJson (results.map fun r =>
           match r with
-          | some e => acceptedRule (probes sh fl e comp f.dflt)
+          | some e => acceptedRule (probes sh fl den e comp f.dflt)
           | none => rejectedRule), dd)
   let stats := Json.mkObj [
     ("config_reason", jstr cfgReason),
